@@ -44,6 +44,10 @@ SETTINGS = [
     # interpreted in, and as the conversion target
     {"TIMEZONE": "CET"}, {"TIMEZONE": "UTC", "TO_TIMEZONE": "CET"}, {"TIMEZONE": "EET", "TO_TIMEZONE": "WET"},
     {"TIMEZONE": "UTC", "TO_TIMEZONE": "EET", "RETURN_AS_TIMEZONE_AWARE": True},
+    # settings the validators reject half-way through building the shared Settings object (each validator has its own message
+    # path): the failure must leave nothing behind for the calls that follow
+    {"PARSERS": ["absolute-time", "bogus-parser"]}, {"REQUIRE_PARTS": ["day", "day"]}, {"REQUIRE_PARTS": ["hour"]},
+    {"DEFAULT_LANGUAGES": ["xx"]},
 ]
 NOBASE_SETTINGS = [{"__nobase__": True}, {"__nobase__": True, "PREFER_DATES_FROM": "past"},
                    {"__nobase__": True, "PREFER_DATES_FROM": "future"}, {"__nobase__": True, "DATE_ORDER": "DMY"}]
